@@ -110,6 +110,16 @@ Models ==
       [nodes |-> <<Nd("MatMul", <<>>, <<"x", "v">>, <<"y">>), Nd("MatMul", <<>>, <<"v", "w">>, <<"z">>), Nd("Add", <<>>, <<"v", "v">>, <<"vv">>)>>,
        inputs |-> <<InD("x", <<DSym, DSym>>)>>, outputs |-> <<"y", "z", "vv">>,
        inits |-> [v |-> T("f32", <<2>>, <<3, -1>>), w |-> T("f32", <<2, 3>>, <<1, 0, -1, 2, 1, 0>>)]],
+    \* Gemm with the default beta and a (1, M) bias: for batch 1 the broadcast bias is the weight itself
+    gemm_row_bias |->
+      [nodes |-> <<Nd("Gemm", <<>>, <<"x", "w", "c13">>, <<"g">>), Nd("Gemm", <<AI("transB", 1)>>, <<"x", "w", "cfull">>, <<"h">>)>>,
+       inputs |-> <<InD("x", <<DSym, DFix(3)>>)>>, outputs |-> <<"g", "h">>,
+       inits |-> [w |-> T("f32", <<3, 3>>, <<1, 0, -1, 2, 1, 0, 0, 3, 1>>), c13 |-> T("f32", <<1, 3>>, <<-1, 2, -3>>), cfull |-> T("f32", <<1, 3>>, <<4, 5, 6>>)]],
+    \* a dilated convolution whose kernel_shape is inferred from the weight
+    conv_dilated_init |->
+      [nodes |-> <<Nd("Conv", <<AIs("dilations", <<2>>)>>, <<"x", "w", "b">>, <<"y">>), Nd("Conv", <<AIs("dilations", <<2, 1>>), AIs("pads", <<1, 0, 1, 0>>)>>, <<"x2", "w2">>, <<"y2">>)>>,
+       inputs |-> <<InD("x", <<DSym, DFix(1), DFix(5)>>), InD("x2", <<DSym, DFix(1), DFix(3), DFix(2)>>)>>, outputs |-> <<"y", "y2">>,
+       inits |-> [w |-> T("f32", <<2, 1, 2>>, <<1, -1, 2, 3>>), w2 |-> T("f32", <<1, 1, 2, 2>>, <<1, -1, 2, 1>>), b |-> T("f32", <<2>>, <<10, 20>>)]],
     const_scaler_gemm |->
       [nodes |-> <<Nd("Constant", <<AT("value", [dt |-> "f32", shape |-> <<3>>, data |-> <<1, 2, 3>>])>>, <<>>, <<"k">>),
                    Nd("Scaler", <<AFs("offset", <<1, 2, 3>>), AFs("scale", <<2, 2, 2>>)>>, <<"x">>, <<"sc">>),
